@@ -162,8 +162,13 @@ def Lit.hasSub : Lit → List String → Bool
       | some (_, b) => b.hasSub es
       | none => false
 
+/-- position of the first occurrence -/
+def idx {α : Type} [DecidableEq α] : List α → α → Option Nat
+  | [], _ => none
+  | x :: xs, a => if x = a then some 0 else (idx xs a).map (· + 1)
+
 def evalExpr (params : List String) : Expr → Src
-  | .param p => match params.idxOf? p with
+  | .param p => match idx params p with
       | some i => .arg i
       | none => .unbound p
   | .defx e => .defx e
